@@ -480,7 +480,7 @@ def w_init(ctx, run, rule='R05.1', only=None, floor=None):
             continue
         b = f.bodies.get(fn)
         if b is None:
-            run.violation(rule, fn, 'init', 'iterator constructor not found (anchor lost)')
+            run.undecided(rule, fn, 'init', 'iterator constructor not found (anchor lost)')
             continue
         ps = [q for q in Explorer(b).explore() if q.end[0] == 'return']
         for q in ps:
@@ -492,7 +492,7 @@ def w_init(ctx, run, rule='R05.1', only=None, floor=None):
             names = [fl['name'] for fl in adt['variants'][0]['fields']] if adt else []
             for fname, (c, k) in fields.items():
                 if fname not in names:
-                    run.violation(rule, fn, f'init[{fname}]', 'field not found (anchor lost)', f'{b.file}:{b.line}')
+                    run.undecided(rule, fn, f'init[{fname}]', 'field not found (anchor lost)', f'{b.file}:{b.line}')
                     continue
                 n += 1
                 val = r[2][names.index(fname)]
